@@ -90,5 +90,25 @@ Proof.
     destruct (HI h) as (A & B & _). pose proof (proj1 A Hp0) as Hp. destruct (B Hp) as [Hb Hr]. auto.
   - unfold exec. rewrite Hf, Ha. reflexivity.
 Qed.
+
+(* every run from the initial state (no helper paused, nothing queued) keeps the invariant; so at every fork step that the handshake allows, each
+   helper is parked with an empty private batch and unregistered: the callbacks pending at the fork are exactly the queued ones, the parent keeps them
+   (it resumes its helpers) and the child starts with their concatenation - each pending callback exists once in each process *)
+Definition helper0 : helper := {| hph := H_Idle; hq := []; hbatch := []; hdone := []; hreg := true; pause := false; paused := false |}.
+Definition init : st := {| hp := fun _ => helper0; fp := F_Idle; child := None |}.
+Lemma Inv_init : Inv init.
+Proof. intros h. unfold hinv, init, helper0; cbn. repeat split; intros; try discriminate; auto. Qed.
+Definition run (cs : list choice) (s : st) : st := fold_left (fun x c => exec c x) cs s.
+Lemma Inv_run cs : forall s, Inv s -> Inv (run cs s).
+Proof. induction cs as [|c cs IH]; intros s H; cbn; [exact H|apply IH, Inv_exec, H]. Qed.
+Theorem fork_all_runs cs :
+  let s := run cs init in fp s = F_Wait -> all_paused s = true ->
+  (forall h, (h < nh)%nat -> hph (hp s h) = H_Paused /\ hbatch (hp s h) = [] /\ hreg (hp s h) = false) /\
+  child (exec FFork s) = Some (merged s) /\ (forall h, hp (exec FFork s) h = hp s h).
+Proof.
+  intros s Hf Ha. destruct (fork_helpers_quiescent s (Inv_run cs init Inv_init) Hf Ha) as [A B].
+  split; [exact A|split; [exact B|]]. intros h. unfold exec. rewrite Hf, Ha. reflexivity.
+Qed.
 End FORK.
 Print Assumptions fork_helpers_quiescent.
+Print Assumptions fork_all_runs.
